@@ -2,11 +2,12 @@ import sys, json
 from pathlib import Path
 from vlib import wflab, wfrun, core
 from vlib.checks import c41
-seed = int(sys.argv[1]); want = sys.argv[2]; idxs = [int(a) for a in sys.argv[3:]] or range(96)
+seed = int(sys.argv[1]); want = sys.argv[2]; idxs = [int(a) for a in sys.argv[3:] if a.isdigit()] or range(96)
 for idx in idxs:
     slot = idx % c41.NSLOT
     entries, is_sched = c41.slice_entries(slot)
-    if want not in [e.name for e in entries]:
+    force = '--force' in sys.argv
+    if want not in [e.name for e in entries] and not force:
         continue
     rng = core.case_rng('C41', seed, idx)
     gates = c41.gates_for(idx)
@@ -17,7 +18,7 @@ for idx in idxs:
     if gates['unroll_neg']:
         gates['dflags']['unroll'] = True
     wc = wflab.make_case(rng, idx, gates)
-    e = [e for e in entries if e.name == want][0]
+    e = wflab.REG_BY_NAME[want]
     if is_sched:
         continue
     wd = Path('/verif/.scratch_wd'); counters = {}
